@@ -107,6 +107,14 @@ class Run:
         self.f, self.facts = f, facts
         self.basic = dict(BASIC)
         self.sub = dict(SUB)
+        self.persistent = []
+        self.static_stack = False
+        for bid, i, s_ in f.stmts():
+            st = strip(s_)
+            if isinstance(st, dict) and st.get('k') == 'decl':
+                for vd in st['vars']:
+                    if 'Stack' in (vd.get('t') or '') and vd.get('static'):
+                        self.static_stack = True
         if tags:
             m = {'null': 'kNull', 'true': 'kTrue', 'false': 'kFalse', 'uint': 'kUint', 'sint': 'kSint', 'real': 'kReal', 'str': 'kStringCopy',
                  'raw': 'kRaw', 'obj': 'kObject', 'arr': 'kArray'}
@@ -117,7 +125,8 @@ class Run:
 
     def serialize(self, tree):
         out = bytearray()
-        stack = []
+        # a parent stack declared static / thread_local survives the call: the model keeps it across serialize() calls
+        stack = self.persistent if self.static_stack else []
         pending = {}
         BASE = 1 << 20
         it = None
@@ -280,4 +289,4 @@ class Run:
                         env[vd['id']] = 'STK'
         self._stk_ids = [k for k, v in env.items() if v == 'STK']
         r = it.run(env, {})
-        return r[0], bytes(out), stack
+        return r[0], bytes(out), list(stack)
